@@ -1,7 +1,7 @@
 (* C16 — Par/Seq trees. Statements only; proofs in ParSeqProps.v.  Trees of any depth and
    fan-out; [tr_tree t tr]: tr is a trace of dispatching t — a seq node concatenates the traces of
    its children, a par node interleaves them arbitrarily (rayon join). *)
-From Shred Require Import Base Plan PlanLemmas Exec ExecProps ParSeq ParSeqProps TreeAccept.
+From Shred Require Import Base Plan PlanLemmas Exec ExecProps ParSeq ParSeqProps TreeAccept AcceptComplete TreeComplete.
 From Coq Require Import Permutation.
 
 (* every leaf runs exactly once: every trace is a rearrangement of the sequential trace *)
@@ -49,6 +49,12 @@ Theorem C16_trace_acceptor_sound :
   forall t tr, NoDup (t_leaves t) -> tree_accept t tr = true -> tr_tree t tr.
 Proof. exact tree_accept_sound. Qed.
 Print Assumptions C16_trace_acceptor_sound.
+
+(* ... and complete: the acceptor decides membership in the trace set of the tree *)
+Theorem C16_trace_acceptor_decides_the_trace_set :
+  forall t tr, NoDup (t_leaves t) -> (tree_accept t tr = true <-> tr_tree t tr).
+Proof. exact tree_accept_iff. Qed.
+Print Assumptions C16_trace_acceptor_decides_the_trace_set.
 
 Example C16_example :
   let t := TSeq [TPar [TLeaf 1 [8] []; TLeaf 2 [8] [9]]; TLeaf 3 [] [8]] in
